@@ -77,6 +77,12 @@ pub fn mark_stop() {
     INPUT_AT_STOP.store(INPUT_TOTAL.load(SeqCst), SeqCst);
 }
 
+/// The stop flag was seen set (by whoever): mark the instant unless it is marked already.
+pub fn mark_stop_once() {
+    use std::sync::atomic::Ordering::SeqCst;
+    let _ = INPUT_AT_STOP.compare_exchange(u64::MAX, INPUT_TOTAL.load(SeqCst), SeqCst, SeqCst);
+}
+
 /// Input bytes read after the stop event (None: no stop event in this run).
 pub fn input_bytes_after_stop() -> Option<u64> {
     use std::sync::atomic::Ordering::SeqCst;
